@@ -102,7 +102,7 @@ def run_ops(t, view, ops, out, prefix):
 
 
 def is_atomic_mut(op):
-    return op[0] in ('set', 'app', 'pop', 'chg', 'cpy', 'setf', 'seth', 'sub')
+    return op[0] in ('set', 'app', 'pop', 'chg', 'cpy', 'setf', 'seth', 'setb', 'sub')
 
 
 def refetched(old, new):
